@@ -268,21 +268,36 @@ func VerifH_C06_DecodedSortAfter() {
 	n := rt.Choice("n", maxN) + 1
 	desc := rt.Choice("desc", 2) == 1
 	size := rt.Choice("size", 2) + 1
+	// the sort key is a number (symbolic float64) or a date (symbolic int64 nanoseconds)
+	asDate := rt.Choice("date_key", 2) == 1
 	vals := make([]float64, n)
+	nanos := make([]int64, n)
 	dv := &verifDocValues{fields: make([][]string, n), terms: make([][][]byte, n)}
 	for i := 0; i < n; i++ {
-		vals[i] = rt.F64("val")
-		rt.Assume(rt.And(vals[i] == vals[i], rt.Or(vals[i] != 0, math.Float64bits(vals[i]) == 0)))
 		dv.fields[i] = []string{"f"}
-		dv.terms[i] = [][]byte{numeric.MustNewPrefixCodedInt64(numeric.Float64ToInt64(vals[i]), 0)}
+		if asDate {
+			nanos[i] = rt.I64("nanos")
+			dv.terms[i] = [][]byte{numeric.MustNewPrefixCodedInt64(nanos[i], 0)}
+		} else {
+			vals[i] = rt.F64("val")
+			rt.Assume(rt.And(vals[i] == vals[i], rt.Or(vals[i] != 0, math.Float64bits(vals[i]) == 0)))
+			dv.terms[i] = [][]byte{numeric.MustNewPrefixCodedInt64(numeric.Float64ToInt64(vals[i]), 0)}
+		}
 	}
 	scores := make([]float64, n)
+	typ := search.SortFieldAsNumber
+	if asDate {
+		typ = search.SortFieldAsDate
+	}
 	mk := func() search.SortOrder {
-		return search.SortOrder{&search.SortField{Field: "f", Type: search.SortFieldAsNumber, Desc: desc}, &search.SortDocID{}}
+		return search.SortOrder{&search.SortField{Field: "f", Type: typ, Desc: desc}, &search.SortDocID{}}
 	}
 	before := func(j, i int) bool {
 		lt := vals[j] < vals[i]
 		gt := vals[j] > vals[i]
+		if asDate {
+			lt, gt = nanos[j] < nanos[i], nanos[j] > nanos[i]
+		}
 		if desc {
 			lt, gt = gt, lt
 		}
@@ -323,6 +338,7 @@ func VerifH_C06_DecodedSortAfter() {
 		rt.Assert(rank(h) == len(p1)+p, "hit p of the page after hit j has rank j+1+p in the full order")
 	}
 	if n >= 3 {
-		rt.Cover(rt.And(len(p2) >= 1, vals[0] != vals[1]), "second-page-nonempty")
+		rt.Cover(rt.And(len(p2) >= 1, !asDate, vals[0] != vals[1]), "second-page-nonempty")
+		rt.Cover(rt.And(len(p2) >= 1, asDate, nanos[0] != nanos[1]), "second-page-nonempty-date")
 	}
 }
